@@ -64,10 +64,11 @@ theorem frames_is_length (g : Geom) (ty : Ty) (st : St) (hs : (st.ref ty).size =
 
 /-- a new file, a whole-frame RAW file, a tight or padded AU / WAV file opened SFM_RDWR (C08Refine.RwInv_initial_*), and
     every state reached from them (RwInv_reachable): every judged operation list produces an accepted transcript -/
-theorem rdwr_handle_run_accepted (h : H) (s : Store) (inv : RwInv h s) (strict : Bool) (ops : List Sf.Op)
-    (hr0 : h.rpos = 0) (hw1 : h.wpos = h.frames) (hj : ∀ op ∈ ops, AbsBridge.Judged h op) (hcl : AbsBridge.CloseLast ops) :
-    holdsOn (C05Bridge.geomOf h strict) (AbsBridge.absRef h s) (fun _ => true) (AbsBridge.transcript h s ops) = .ok ops.length :=
-  C05Bridge.handle_run_accepted h s strict ops (C05Bridge.BInv_read_write h s inv) (fun _ => hr0)
+theorem rdwr_handle_run_accepted (h : H) (s : Store) (inv : RwInv h s) (strict : Bool) (loss : Ty → Bool) (ops : List Sf.Op)
+    (hr0 : h.rpos = 0) (hw1 : h.wpos = h.frames) (hj : ∀ op ∈ ops, AbsBridge.Judged (C05Bridge.geomOf h strict loss) h op)
+    (hcl : AbsBridge.CloseLast ops) :
+    holdsOn (C05Bridge.geomOf h strict loss) (AbsBridge.absRef h s) (fun _ => true) (AbsBridge.transcript h s ops) = .ok ops.length :=
+  C05Bridge.handle_run_accepted h s strict loss ops (C05Bridge.BInv_read_write h s inv) (fun _ => hr0)
     (fun hm => by rw [inv.gives.1] at hm; cases hm) (fun _ => hw1) hj hcl
 
 /-! ## non-vacuity -/
@@ -101,16 +102,21 @@ def exOps : List Sf.Op :=
    .truncate 0 4, .close 0]
 example : RwInv C06.rwH0 C06.rwStore :=
   C08Refine.RwInv_initial_raw 0 C06.rwStore 0x040002 1 8000 C06.rwH0 C06.rwStore C06.rwH0_opened rfl (by decide) false
-example : holdsOn (C05Bridge.geomOf C06.rwH0 true) (AbsBridge.absRef C06.rwH0 C06.rwStore) (fun _ => true)
+/-- the geometry of the C08 campaign: strict seeks, the history's caller type claimed lossless — after the write the read
+    of the whole file is compared with `writeAt` of the cells written, and accepted -/
+example : holdsOn (C05Bridge.geomOf C06.rwH0 true (fun t => decide (t = .s16))) (AbsBridge.absRef C06.rwH0 C06.rwStore) (fun _ => true)
     (AbsBridge.transcript C06.rwH0 C06.rwStore exOps) = .ok 8 :=
   rdwr_handle_run_accepted C06.rwH0 C06.rwStore
     (C08Refine.RwInv_initial_raw 0 C06.rwStore 0x040002 1 8000 C06.rwH0 C06.rwStore C06.rwH0_opened rfl (by decide) false)
-    true exOps rfl rfl
+    true _ exOps rfl rfl
     (by
       intro op hop
       simp only [exOps, List.mem_cons, List.mem_nil_iff, or_false] at hop
-      rcases hop with h | h | h | h | h | h | h | h <;> subst h <;> simp [AbsBridge.Judged] <;> decide)
+      rcases hop with h | h | h | h | h | h | h | h <;> subst h <;> simp [AbsBridge.Judged, C05Bridge.geomOf] <;> decide)
     (by simp [exOps, AbsBridge.CloseLast, AbsBridge.isClose])
+/-- the read after the write (read position 3) starts with the sample written at frame 3 -/
+example : ((AbsBridge.transcript C06.rwH0 C06.rwStore exOps).map (fun l => l.2.data))[4]? = some #[9, 5, 6, 7, 8, 0xA5A5, 0xA5A5, 0xA5A5] := by
+  decide
 example : (AbsBridge.transcript C06.rwH0 C06.rwStore exOps).map (fun l => (l.2.ret, l.2.err)) =
     [(3, false), (2, false), (2, false), (3, false), (5, false), (4, false), (1, false), (0, false)] := by decide
 
